@@ -79,7 +79,7 @@ def make_case(rng: random.Random, index: int) -> Dict[str, Any]:
     if index % 2 == 0:
         hists = sparse_case(rng)
     else:
-        hists = cli_histories(rng, rng.randint(1, 3), cli_profile(gap_style=rng.choice(("long", "medium")), max_events=rng.choice((8, 14)), min_events=4, tie_prob=0.0))
+        hists = cli_histories(rng, rng.randint(1, 3), cli_profile(gap_style=rng.choice(("long", "medium", "boundary")), max_events=rng.choice((8, 14)), min_events=4, tie_prob=0.0, mixed_tz=rng.random() < 0.4))
     language = rng.choice(("en", "kl"))
     dates = sorted({parse_ts(r["ts"]).date() for h in hists.values() for r in h["rows"]})
     from_s = to_s = None
